@@ -11,9 +11,10 @@ Numbers are tokens: the exposition renders `repr(float(v))` through `floatToGoSt
 `pyInt`, `pyFloat` (CPython `int()`, `float()`); the only laws used are stated as hypotheses next to the theorem.
 
 Hypotheses forced by the proofs, and what the real code does at the excluded points:
-* F2 — a metric / label name that the legacy pattern accepts although it ends in '\n' (`$` matches before a final line
-  feed): written bare, it splits the line; `Gauge('a','h',['l\n'])` → `a{l\n="v"} 1.0` → the parser raises ValueError.
-  A violation of C03 reachable through the public constructors: a finding (witness theorem `f2_label_name_breaks`).
+* F2 — a metric / label name that the legacy pattern accepted although it ended in '\n' (`$` matches before a final line
+  feed) was written bare and split the line: `Gauge('a','h',['l\n'])` → `a{l\n="v"} 1.0` → ValueError.  Repaired in
+  /repo (`\Z`); the end-anchor kind is re-extracted on every run and `f2_repaired` is the theorem that depends on it — it
+  (and with it every round-trip theorem below) stops checking if the pattern goes back to `$`.
 * F20 — label names rejected by `_validate_labelname` (`__name__`, any `__…` name; under legacy validation every
   non-legacy name): the parser re-validates label names and raises ValueError, but several public paths write label
   names that were never validated: `Enum('__e', …)` / `Enum('a:b', …)` under legacy validation and
@@ -73,7 +74,7 @@ example : nextUnquotedChar ("\"" ++ "a,\\\"}\\\\" ++ "\"" ++ ",b}").toList (fun 
 -- the label block -------------------------------------------------------------------------------------------------------
 
 /-- **`parse_labels` inverts the label rendering of `sample_line`**: for every label dict whose names the library's own
-`_validate_labelname` accepts (minus the F2 names), with any label values — every character, every adjacency, empty —
+`_validate_labelname` accepts, with any label values — every character, every adjacency, empty —
 bare or quoted names, any number of labels -/
 theorem parse_labels_render {legacy : Bool} {ls : List (Str × Str)} (h : LabelsOK legacy ls) :
     parseLabels legacy (labelStr ls) false = .ok (sortByKey ls) :=
@@ -83,12 +84,13 @@ example : LabelsOK false [("b".toList, "\\\"\n".toList), ("a b".toList, [])] := 
 example : LabelsOK true [("le".toList, "+Inf".toList), ("a".toList, "x\\".toList)] := by decide
 example : labelStr [("b".toList, "\\\"\n".toList), ("a b".toList, [])] = "\"a b\"=\"\",b=\"\\\\\\\"\\n\"".toList := by decide
 
-/-- F2 witness: the model (as the code) writes a label name accepted by the legacy pattern bare even when it ends in a
-line feed, and the block no longer parses back -/
-theorem f2_label_name_breaks :
-    validateLabelname true "l\n".toList = .ok () ∧ labelStr [("l\n".toList, "v".toList)] = "l\n=\"v\"".toList ∧
-      parseLabels true (labelStr [("l\n".toList, "v".toList)]) false = .ok [("l".toList, "v".toList)] :=
-  ⟨by rfl, by decide, by rfl⟩
+/-- F2 is repaired: no name accepted by the legacy patterns (as extracted from the current source) ends in a line feed -/
+theorem f2_repaired (n : Str) :
+    (isValidLegacyMetricName n = true → n.getLast? ≠ some '\n') ∧ (isValidLegacyLabelname n = true → n.getLast? ≠ some '\n') :=
+  ⟨legacyMetric_no_newline, legacyLabel_no_newline⟩
+
+example : isValidLegacyLabelname "l\n".toList = false ∧ validateLabelname true "l\n".toList = .error .valueError :=
+  ⟨by decide, by rfl⟩
 
 -- the sample line ---------------------------------------------------------------------------------------------------------
 
@@ -107,7 +109,7 @@ theorem sample_line_roundtrip (legacy : Bool) (pyInt : Str → Option Int) (pyFl
 def exSample : Sample :=
   ⟨"a b".toList, [("l".toList, "x\\\"\n,}".toList), ("é".toList, [])], "1.2345678901234568e+19".toList, some ⟨.int 1, 1000⟩, none⟩
 
-example : SampleOK false exSample := ⟨by decide, by decide, by decide⟩
+example : SampleOK false exSample := ⟨by decide, by decide⟩
 example : sampleLine { exSample with ts := none } = "{\"a b\",l=\"x\\\\\\\"\\n,}\",\"é\"=\"\"} 1.2345678901234568e+19\n".toList := by decide
 
 
@@ -165,7 +167,7 @@ from any source (instrumentation classes, `*MetricFamily` helpers, custom collec
 family name), `_created`/`_gsum`/`_gcount` samples moved into trailing gauge families — the exposition parses, and the
 parsed families carry exactly the exposed samples (name, label dict, value token, millisecond count), in exposition
 order (`exposedSamples`: per family the non-trailing samples, then the trailing groups in sorted suffix order).
-`Expressible` = per family: type in METRIC_TYPES, name accepted by `Metric()` and not F2; per sample `SampleGood`
+`Expressible` = per family: type in METRIC_TYPES, name accepted by `Metric()`; per sample `SampleGood`
 (`SampleOK`, the number laws, name accepted by `Metric()`). -/
 theorem text_roundtrip_samples (legacy : Bool) (pyInt : Str → Option Int) (pyFloat : Str → Option Nat) (fs : List Family)
     (h : Expressible legacy pyInt pyFloat fs) :
@@ -193,14 +195,39 @@ example : Expressible false (fun _ => none) (fun _ => some 0) exFams := by
     intro s hm
     simp only [List.mem_cons, List.not_mem_nil, or_false] at hm
     rcases hm with rfl | rfl
-    · exact hs _ ⟨by decide, by decide, by decide⟩ rfl rfl
-    · exact hs _ ⟨by decide, by decide, by decide⟩ rfl rfl
+    · exact hs _ ⟨by decide, by decide⟩ rfl rfl
+    · exact hs _ ⟨by decide, by decide⟩ rfl rfl
   · refine ⟨by decide, by decide, ?_⟩
     intro s hm
     simp only [List.mem_cons, List.not_mem_nil, or_false] at hm
     subst hm
-    exact hs _ ⟨by decide, by decide, by decide⟩ rfl rfl
+    exact hs _ ⟨by decide, by decide⟩ rfl rfl
 
 example : (exposedSamples exFams).map (·.name) = ["c_total".toList, "c_created".toList, "é g".toList] := by decide
+
+
+/-- **document-level round trip, families**: for an expressible registry whose families are regular (every sample name
+within the suffix set of the written type: counter `_total`; gauge ''; summary '', `_count`, `_sum`; histogram `_bucket`,
+`_count`, `_sum`) and whose consecutive written family names differ, the exposition parses to exactly `mungeText fs`:
+per exposed family the main family — counter named without the `_total` put on the wire, info as gauge `name_info`,
+stateset as gauge, gaugehistogram as histogram, unknown written `untyped` and read `unknown` — followed by one gauge
+family `name+suffix` per `_created` / `_gcount` / `_gsum` group, each with the help text up to trailing blanks
+(`helpDoc`) and its samples in order -/
+theorem text_roundtrip_families (legacy : Bool) (pyInt : Str → Option Int) (pyFloat : Str → Option Nat) (fs : List Family)
+    (h : Expressible legacy pyInt pyFloat fs) (hr : ∀ fam ∈ fs, RegularFam fam) (hd : NamesDiffer (fs.flatMap famBlocks)) :
+    textParse legacy pyInt pyFloat (generateLatest fs) = .ok (mungeText pyFloat fs) :=
+  Lemmas.TextParse.text_roundtrip_families legacy pyInt pyFloat fs h hr hd
+
+example : (∀ fam ∈ exFams, RegularFam fam) ∧ NamesDiffer (exFams.flatMap famBlocks) := by
+  refine ⟨?_, by decide⟩
+  intro fam hf
+  simp only [exFams, List.mem_cons, List.not_mem_nil, or_false] at hf
+  rcases hf with rfl | rfl <;> decide
+
+/-- the documented mapping on the example: counter `c` (written `c_total`) comes back as `c`, its `_created` sample as the
+trailing gauge `c_created`, the UTF-8 gauge unchanged -/
+example : (mungeText (fun _ => some 0) exFams).map (fun f => (f.name, f.typ, f.samples.map (·.name))) =
+    [("c".toList, "counter".toList, ["c_total".toList]), ("c_created".toList, "gauge".toList, ["c_created".toList]),
+     ("é g".toList, "gauge".toList, ["é g".toList])] := by decide
 
 end PromVerif.Props.C03
